@@ -1,9 +1,13 @@
+mod analysis;
 mod exec;
+mod families;
 mod handles;
 mod hist;
 mod json;
+mod oracles;
 mod payload;
 mod prng;
+mod props;
 mod scenario;
 mod sched;
 
@@ -13,50 +17,113 @@ use multiqueue2_verif_rt as rt;
 static GLOBAL: rt::galloc::SimAlloc = rt::galloc::SimAlloc;
 
 use exec::{RunOutcome, RunSource};
-use handles::{Flavour, QueueCfg, WaitK};
 use scenario::*;
-use sched::{SchedCfg, Strategy};
+use sched::SchedCfg;
+use std::collections::BTreeMap;
 
-struct Smoke {
+struct Explore {
+    prop: String,
+    base: u64,
     i: u64,
     n: u64,
-    done: u64,
+    cur: Option<(u64, Scenario, SchedCfg)>,
+    ends: BTreeMap<String, u64>,
+    classes: BTreeMap<String, u64>,
+    shown: u64,
+    max_show: u64,
     steps: u64,
-    show: bool,
+    nontrivial: u64,
+    harness: u64,
+    verbose: bool,
 }
 
-impl RunSource for Smoke {
+impl RunSource for Explore {
     fn next(&mut self) -> Option<(Scenario, SchedCfg)> {
         if self.i >= self.n {
             return None;
         }
+        let seed = prng::run_seed(self.base, props::salt(&self.prop), self.i);
         self.i += 1;
-        let q = QueueCfg { flavour: Flavour::Bcast, fut: false, cap_req: 2, wait: WaitK::Block(0, 0), fut_spins: None };
-        let mut s = Scenario::new("smoke", q);
-        s.setup.push(Op::AddStream { h: 1, new: 2 });
-        s.threads.push(ThreadSpec { handles: vec![0], prog: vec![Op::Produce { h: 0, n: 5, api: SendApi::TrySend, max_retry: UNLIMITED }, Op::DropSender { h: 0 }], spawned: false });
-        s.threads.push(ThreadSpec { handles: vec![1], prog: vec![Op::Consume { h: 1, api: RecvApi::Recv, quota: UNLIMITED, max_empty: UNLIMITED, after_end: 1 }], spawned: false });
-        s.threads.push(ThreadSpec { handles: vec![2], prog: vec![Op::Consume { h: 2, api: RecvApi::TryRecv, quota: UNLIMITED, max_empty: UNLIMITED, after_end: 1 }], spawned: false });
-        Some((s, SchedCfg::new(self.i, Strategy::Uniform)))
+        let (s, c) = props::generate(&self.prop, seed);
+        self.cur = Some((seed, s.clone(), c.clone()));
+        Some((s, c))
     }
     fn done(&mut self, o: RunOutcome) {
-        self.done += 1;
+        let (seed, scn, cfg) = self.cur.take().unwrap();
+        *self.ends.entry(format!("{}/{}", scn.family, o.end.name())).or_default() += 1;
         self.steps += o.stats.steps;
-        if self.show || o.end != sched::End::Completed || !o.harness_errors.is_empty() || !o.ledger.is_empty() || !o.leaks.is_empty() {
-            println!("end={:?} steps={} panic={:?} errs={:?} ledger={:?} leaks={:?} fin={:?}", o.end, o.stats.steps, o.panic_msg, o.harness_errors, o.ledger, o.leaks, o.fin);
-            for r in &o.recs {
-                println!("  {}", hist::fmt_rec(r));
+        let v = props::evaluate(&self.prop, &scn, &o);
+        if v.nontrivial {
+            self.nontrivial += 1;
+        }
+        if let Some(e) = &v.harness_error {
+            self.harness += 1;
+            if self.shown < self.max_show {
+                self.shown += 1;
+                println!("HARNESS ERROR run={} seed={} : {}", self.i - 1, seed, e);
+                println!("  scenario: {}", scn.to_json().to_string());
+                println!("  sched: {}", scenario::sched_json(&cfg).to_string());
+                for r in o.recs.iter().rev().take(30).rev() {
+                    println!("    {}", hist::fmt_rec(r));
+                }
             }
-            self.show = false;
+        }
+        for x in &v.violations {
+            *self.classes.entry(format!("{}.{} @{}", x.prop, x.class, x.site)).or_default() += 1;
+        }
+        if !v.violations.is_empty() && self.shown < self.max_show {
+            self.shown += 1;
+            let x = &v.violations[0];
+            println!("VIOLATION run={} seed={} {}.{} site={} end={}", self.i - 1, seed, x.prop, x.class, x.site, o.end.name());
+            println!("  msg: {}", x.msg);
+            println!("  tags: {:?}", x.tags);
+            println!("  scenario: {}", scn.to_json().to_string());
+            println!("  sched: {} steps={}", scenario::sched_json(&cfg).to_string(), o.stats.steps);
+            if self.verbose {
+                for r in &o.recs {
+                    println!("    {}", hist::fmt_rec(r));
+                }
+                println!("  probes: {:?}", o.stats.probes.iter().enumerate().filter(|(_, c)| **c > 0).map(|(i, c)| format!("{}={}", rt::state::PROBE_NAMES[i], c)).collect::<Vec<_>>());
+                println!("  schedule: {}", sched::rle(&o.record[..o.record.len().min(1500)]));
+            }
         }
     }
 }
 
 fn main() {
     exec::init_process();
-    let n: u64 = std::env::args().nth(1).and_then(|x| x.parse().ok()).unwrap_or(1);
-    let mut s = Smoke { i: 0, n, done: 0, steps: 0, show: true };
-    let t = std::time::Instant::now();
-    exec::run_batch(&mut s);
-    println!("runs={} steps={} in {:?}", s.done, s.steps, t.elapsed());
+    let args: Vec<String> = std::env::args().collect();
+    match args.get(1).map(|s| s.as_str()) {
+        Some("explore") => {
+            let prop = args.get(2).cloned().unwrap_or("C01".into());
+            let n: u64 = args.get(3).and_then(|x| x.parse().ok()).unwrap_or(1000);
+            let base: u64 = args.get(4).and_then(|x| x.parse().ok()).unwrap_or(1);
+            let max_show: u64 = args.get(5).and_then(|x| x.parse().ok()).unwrap_or(3);
+            let start: u64 = std::env::var("START").ok().and_then(|x| x.parse().ok()).unwrap_or(0);
+            let mut e = Explore {
+                prop,
+                base,
+                i: start,
+                n,
+                cur: None,
+                ends: BTreeMap::new(),
+                classes: BTreeMap::new(),
+                shown: 0,
+                max_show,
+                steps: 0,
+                nontrivial: 0,
+                harness: 0,
+                verbose: std::env::var("VERBOSE").is_ok(),
+            };
+            let t = std::time::Instant::now();
+            exec::run_batch(&mut e);
+            println!("runs={} steps={} nontrivial={} harness_errors={} in {:?}", e.i, e.steps, e.nontrivial, e.harness, t.elapsed());
+            println!("ends: {:?}", e.ends);
+            println!("violation classes: {:#?}", e.classes);
+        }
+        _ => {
+            eprintln!("usage: sim explore <prop> <n> [seed] [max_show]");
+            std::process::exit(2);
+        }
+    }
 }
